@@ -48,6 +48,13 @@ CHECKS['C10'] = dict(
     design_ref='DESIGN.md section 3 C10',
     note='dict backend; acting session plus one concurrent session; tolerances: RFC 2180 behaviour for messages another session expunged, keywords outside PERMANENTFLAGS, \\Deleted messages outside the session view on EXPUNGE, empty-set COPY may be OK or NO; SEARCH is C13',
     technique='explicit-state model checking of the implementation (two-level: BFS-reached states x full probe alphabet) against a reference model')
+CHECKS['C11'] = dict(
+    engine='E5 two-level explicit-state search over vf/checks/c11.py + vf/refmodel/namespace.py',
+    category='model_checking',
+    text='Level 1: exhaustive BFS (depth 3 quick / 4 thorough) over a 13-event driver alphabet (CREATE of flat, nested and deep names, DELETE, RENAME incl. RENAME INBOX, SUBSCRIBE/UNSUBSCRIBE, APPEND, a second session selecting a mailbox) on the real server. Level 2: in every reached state, 240 LIST/LSUB probes (6 references x 20 patterns incl. *, %, mixed, case variants of INBOX, trailing delimiter, empty pattern), STATUS of 13 names, and ~70 hostile CREATE/DELETE/SUBSCRIBE/RENAME/APPEND probes (case variants of INBOX, trailing and doubled delimiters, wildcard, quote, newline, non-ASCII and invalid-UTF-7 names, renames onto existing names, into the own subtree, onto placeholders, of placeholders) are executed; results are compared with a reference namespace model (explicit recursive pattern matcher, no regex) and the complete namespace afterwards (names via LIST, subscriptions via LSUB, MAILBOXID/UIDVALIDITY/UIDNEXT/MESSAGES via STATUS, decoded by an independent modified-UTF-7 decoder) must equal the model; refused commands must change nothing; RENAME must carry identity, messages, UIDs and UIDVALIDITY.',
+    design_ref='DESIGN.md section 3 C11',
+    note='dict backend; tolerances listed in DESIGN C11 (SUBSCRIBE of a missing name OK or NO, trailing-delimiter CREATE, DELETE with inferiors, RENAME of/onto a \\Noselect placeholder, names with empty components outside the model); two recorded known findings about LSUB',
+    technique='explicit-state model checking of the implementation (two-level) against a reference namespace model')
 NA = {}
 
 def main():
